@@ -305,6 +305,15 @@ def libm(s, st, name, a):
         if name == 'sqrt' and s.mode == 'fp' and False: return ('f', z3.fpSqrt(RNE, X[0]))
         r = s.uf('libm_' + name, len(a))(*X)
         st.apps.append((name, tuple(X), r))
+        if s.domain_checks and s.mode in ('fp', 'fpu') and not s.in_harness(st.frames[-1]):
+            # bit-precise domain check: can the argument be a non-NaN double outside the function's domain on this path?
+            x0 = X[0]; bad = None
+            if name in ('acos', 'asin'): bad = z3.Or(z3.fpGT(x0, z3.FPVal(1.0, F64)), z3.fpLT(x0, z3.FPVal(-1.0, F64)))
+            elif name == 'sqrt': bad = z3.fpLT(x0, z3.FPVal(0.0, F64))
+            elif name == 'log': bad = z3.fpLEQ(x0, z3.FPVal(0.0, F64))
+            if bad is not None:
+                rr, m = s.check(st, [bad])
+                if rr == z3.sat: s.domain_issues.append(('%s: argument outside its domain in %s' % (name, st.frames[-1].fn.name[:80]), s.full_model(st, [bad]) or m[0], st.clone()))
         return ('f', r)
     # ---- real mode (arguments in sum-of-monomials normal form so that equal arguments are syntactically equal)
     X = [z3.simplify(s.fz(x), som=True) if not isinstance(x[1], float) else s.fz(x) for x in a]; x = X[0]
